@@ -1,5 +1,6 @@
 import PlumpyModel.PM.Proof3
 import PlumpyModel.PM.Proof12
+import PlumpyModel.PM.Proof14
 import PlumpyModel.PM.LProof12
 import PlumpyModel.Status.Model
 /-!
@@ -220,6 +221,75 @@ def C05_transparent_full : Prop :=
         (run P (init nf) evs').trace = (run P (init nf) evs).trace ∧
         (run P (init nf) evs').ctx = (run P (init nf) evs).ctx)
 
+/-! ### second part: wake-ups that arrive while the process is held by a pause on a wait
+
+`admissible2` (helper lemmas in `PM/Proof14.lean`) admits a wake-up request also at a position at which the stepping task is
+suspended on a pause future (the process is held by a pause, or released by play and not yet woken) *and the state is WAITING
+on a wait without outcome* — and, once such a wake-up has arrived, every further one during the same hold (the flag `g` of
+`admissible2` / `unpaused2`, computed by `nextG`, remembers that).  The reference history `unpaused2` is again an erasure:
+it keeps the tick that wakes the stepping task from such a hold (both runs resume the wait at that tick).  The simulation
+relation `Sim2` adds the phase `LagW` to `Sim`: the run with pauses is suspended on a pause future at a step boundary in
+WAITING and the reference run is suspended on that wait — through the view `onWait` that is `InStep`. -/
+
+/-- **transparency (second partial class): the run with pauses is simulated by the run of its reference history.**
+As `C05_transparent_partial`, for the larger class `admissible2 P false`: ticks, `pause`, `play` anywhere; `resume` /
+`complete` / awaitable-done / `call_soon` / non-raising callback ticks at quiet positions (`quiet`) **and** at positions
+where the stepping task is suspended on a pause future with the process WAITING on a wait that has no outcome yet
+(`heldPc c && pendingWait c`), and at every later position of the same hold (`wakeOk`).  Still excluded, by
+`admissible2` (a decidable predicate on the history): wake-ups while the process is held at a step boundary in a state other
+than WAITING (CREATED, RUNNING: the reference run is already ahead by the next step); wake-ups between a pause request that
+interrupted a pending wait and the next tick (`waitInterrupted`); kill / fail / cancel / a failing callback. -/
+theorem C05_transparent_partial2 (P : Prog) (nf : Nat) (evs : List Ev)
+    (hadm : admissible2 P false (init nf) evs = true)
+    (hfuel : fuelOk P (init nf) (unpaused2 P false (init nf) evs) = true) :
+    ∃ g, Sim2 P g (run P (init nf) evs) (run P (init nf) (unpaused2 P false (init nf) evs)) :=
+  run_sim2 P evs false _ _ (sim2_init P nf) (invP_init nf) (inv_init nf) hadm hfuel
+
+/-- **same steps, same context, same result (second partial class)**: under the hypotheses of `C05_transparent_partial2`, if
+the run with pauses has terminated then the reference run (no pause, no play) has terminated in the same state object, with
+the same executed steps (functions, arguments, keyword arguments), context, process future, log of entered states, cleanups
+and — apart from paused/played — listener notifications; and nothing ran while paused. -/
+theorem C05_same_result_partial2 (P : Prog) (nf : Nat) (evs : List Ev)
+    (hadm : admissible2 P false (init nf) evs = true)
+    (hfuel : fuelOk P (init nf) (unpaused2 P false (init nf) evs) = true)
+    (hterm : terminal (run P (init nf) evs).st.label = true) :
+    (run P (init nf) (unpaused2 P false (init nf) evs)).st = (run P (init nf) evs).st ∧
+    (run P (init nf) (unpaused2 P false (init nf) evs)).trace = (run P (init nf) evs).trace ∧
+    (run P (init nf) (unpaused2 P false (init nf) evs)).ctx = (run P (init nf) evs).ctx ∧
+    (run P (init nf) (unpaused2 P false (init nf) evs)).fut = (run P (init nf) evs).fut ∧
+    (run P (init nf) (unpaused2 P false (init nf) evs)).entered = (run P (init nf) evs).entered ∧
+    (run P (init nf) (unpaused2 P false (init nf) evs)).cleanups = (run P (init nf) evs).cleanups ∧
+    (run P (init nf) (unpaused2 P false (init nf) evs)).notif.filter notPP = (run P (init nf) evs).notif.filter notPP ∧
+    (∀ a ∈ (run P (init nf) evs).trace, a.paused = false) := by
+  obtain ⟨g, hs⟩ := C05_transparent_partial2 P nf evs hadm hfuel
+  obtain ⟨h1, h2⟩ := hs.of_terminal hterm
+  obtain ⟨g1, g2, g3, g4, g5, g6, g7, g8, g9, g10, g11, g12, g13, g14, g15⟩ := sh_fields h2
+  exact ⟨h1, g12, g9, g2, g11, g5, g14, C05_nothing_runs_while_paused P nf evs⟩
+
+/-- **never ahead, never out of order (second partial class)**: at every moment of such a history the steps executed so far
+by the run with pauses are the older part of what the reference run has executed. -/
+theorem C05_never_ahead_partial2 (P : Prog) (nf : Nat) (evs : List Ev)
+    (hadm : admissible2 P false (init nf) evs = true)
+    (hfuel : fuelOk P (init nf) (unpaused2 P false (init nf) evs) = true) :
+    ∃ later, (run P (init nf) (unpaused2 P false (init nf) evs)).trace = later ++ (run P (init nf) evs).trace := by
+  obtain ⟨g, hs⟩ := C05_transparent_partial2 P nf evs hadm hfuel
+  exact hs.never_ahead
+
+/-- **the reference history of the second class is again an erasure**: a sublist of `erasePP evs` without pause and play whose
+events other than ticks are exactly those of `erasePP evs` in the same order — no wake-up has to be reordered, only ticks are
+dropped (in particular the instance of `C05_transparent_full` for these histories holds with the identity permutation). -/
+theorem C05_reference_history_is_erasure2 (P : Prog) (g : Bool) (c : Cfg) (evs : List Ev) :
+    (unpaused2 P g c evs).Sublist (erasePP evs) ∧
+    (∀ e ∈ unpaused2 P g c evs, e ≠ .pause ∧ e ≠ .play) ∧
+    (unpaused2 P g c evs).filter (fun e => !isTick e) = (erasePP evs).filter (fun e => !isTick e) :=
+  ⟨unpaused2_sublist P evs g c, unpaused2_no_pp P evs g c, unpaused2_nonticks P evs g c⟩
+
+/-- **the second class contains the first**: every history admitted by `C05_transparent_partial` is admitted by
+`C05_transparent_partial2`, with the same reference history. -/
+theorem C05_partial2_extends_partial (P : Prog) (c : Cfg) (evs : List Ev) (h : admissible P c evs = true) :
+    admissible2 P false c evs = true ∧ unpaused2 P false c evs = unpaused P c evs :=
+  admissible_sub P evs c h
+
 -- non-vacuity: a pause takes effect at the step boundary, the continuation only runs after play
 section
 private def two : Prog := fun fn _ _ _ => if fn = 0 then ⟨1, .ret (.cont 1 [] [])⟩ else ⟨0, .ret (.stop none true)⟩
@@ -269,6 +339,31 @@ example : admissible wc2 (init 1) wc2Hist = true := by decide +kernel
 example : unpaused wc2 (init 1) wc2Hist = [.tick, .complete 0 (.result 3), .tick, .tickCb (.adone 0), .tick] := by decide +kernel
 example : fuelOk wc2 (init 1) (unpaused wc2 (init 1) wc2Hist) = true := by decide +kernel
 example : (run wc2 (init 1) wc2Hist).st = .finished (some 3) true := by decide +kernel
+-- second class: `resume` arrives while the process is held by a pause on its wait (rejected by `admissible`), the hold is
+-- prolonged by a second pause, a tick of the held task, play; three steps executed, the resume value ends as the result
+private def wtHist2 : List Ev :=
+  [.tick, .pause, .tick, .resume (some 7), .tick, .pause, .play, .pause, .tick, .play, .tick, .tick]
+example : admissible wt (init 0) wtHist2 = false := by decide +kernel
+example : admissible2 wt false (init 0) wtHist2 = true := by decide +kernel
+example : unpaused2 wt false (init 0) wtHist2 = [.tick, .tick, .resume (some 7), .tick, .tick] := by decide +kernel
+example : fuelOk wt (init 0) (unpaused2 wt false (init 0) wtHist2) = true := by decide +kernel
+example : (run wt (init 0) wtHist2).st = .finished (some 7) true := by decide +kernel
+example : (run wt (init 0) wtHist2).trace.length = 3 := by decide +kernel
+-- second class, workchain: both awaited futures complete, their done-callbacks and a `call_soon` callback run while the
+-- process is held on the wait; the results land in the context, the step after the wait reads one of them
+private def wc3 : Prog := fun fn _ _ ctx =>
+  match fn with
+  | 0 => ⟨1, .ret (.waitOn 1 [(0, 5), (1, 6)])⟩
+  | _ => ⟨0, .ret (.stop ((ctx.find? (·.1 = 5)).map (·.2)) true)⟩
+private def wc3Hist : List Ev :=
+  [.tick, .pause, .tick, .complete 0 (.result 3), .tickCb (.adone 0), .callSoon false, .complete 1 (.result 4), .tick,
+   .tickCb (.usercb false), .tickCb (.adone 1), .play, .tick]
+example : admissible wc3 (init 2) wc3Hist = false := by decide +kernel
+example : admissible2 wc3 false (init 2) wc3Hist = true := by decide +kernel
+example : fuelOk wc3 (init 2) (unpaused2 wc3 false (init 2) wc3Hist) = true := by decide +kernel
+example : (run wc3 (init 2) wc3Hist).st = .finished (some 3) true := by decide +kernel
+example : (run wc3 (init 2) wc3Hist).ctx = [(6, 4), (5, 3)] := by decide +kernel
+example : (run wc3 (init 2) wc3Hist).trace.length = 2 := by decide +kernel
 end
 /-!
 ## pause / play requested DURING a transition (listeners, state-event callbacks)
